@@ -8,7 +8,7 @@ here = sys.argv[1]
 sys.path.insert(0, here + '/tools')
 import vlib
 t0 = time.time()
-targets = [f"Props/{c['property_id']}.vo" for c in json.load(open(here + '/MANIFEST.json'))['checks']]
+targets = ["Common/Corr.vo"] + [f"Props/{c['property_id']}.vo" for c in json.load(open(here + '/MANIFEST.json'))['checks']]
 with vlib.CoqLock():
     vlib.ensure_makefile()
     rc, out = vlib.sh(["make", "-k", "-j16", "--no-print-directory"] + targets, 3000, cwd=vlib.COQ)
